@@ -21,11 +21,16 @@ R = Registry(
         "(or an overridden sibling) and then self.changed() on every normal path and passes the builtin's "
         "result through; pickling hooks emit the plain builtin value (never _parents); Mutable.changed "
         "flags every parent; the load/refresh/set/pickle/unpickle listeners are registered raw+propagate "
-        "and coerce / link the value to its parent."
+        "and coerce / link the value to its parent; propagate=True of the ORM instance/attribute/mapper event hooks "
+        "registers the listener on a transitive-closure walk of the subclasses (and the walkers they use -- "
+        "ClassManager.subclass_managers, Mapper.self_and_descendants, util.walk_subclasses -- re-feed / recurse on "
+        "every child), so the listeners ext.mutable installs at mapper_configured time reach every descendant class."
     ),
     not_decided=(
         "equality of stored and in-memory value after flush; MutableComposite attribute mapping; mutation "
-        "of nested values; spurious changed() when the builtin raises."
+        "of nested values; spurious changed() when the builtin raises; an override that skips changed() on a path "
+        "where the builtin ran but provably changed nothing (decided on pre-mutation state) is still reported -- "
+        "only 'the builtin was not called on this path' is accepted as proof of no mutation."
     ),
 )
 
@@ -569,6 +574,8 @@ def r5(ctx):
         for n in walk_local(f.node):
             if isinstance(n, (ast.For, ast.While)):
                 atoms = guard_atoms(lexical_guards(pm, n, stop=f.node))
+                for nid in g.nodes_for(n)[:1]:          # `if not propagate: return` before the loop counts as well
+                    atoms += guard_atoms(g.edge_guards(nid))
                 if ("propagate", True) in atoms:
                     loops.append(n)
         if not loops:
@@ -734,3 +741,6 @@ R.mutant("benign-instance-listen-materialises-walk", EV,
 R.mutant("benign-subclass-managers-walks-whole-hierarchy", "orm/instrumentation.py",
          sub("        for cls in self.class_.__subclasses__():\n            mgr = opt_manager_of_class(cls)\n            if mgr is not None and mgr is not self:\n                yield mgr\n                if recursive:\n                    yield from mgr.subclass_managers(True)\n",
              "        if recursive:\n            classes = util.walk_subclasses(self.class_)\n        else:\n            classes = self.class_.__subclasses__()\n        for cls in classes:\n            mgr = opt_manager_of_class(cls)\n            if mgr is not None and mgr is not self:\n                yield mgr\n"), None)
+R.mutant("benign-instance-listen-early-return-when-not-propagating", EV,
+         sub("        if propagate:\n            for mgr in target.subclass_managers(True):\n                event_key.with_dispatch_target(mgr).base_listen(propagate=True)\n",
+             "        if not propagate:\n            return\n        for mgr in target.subclass_managers(True):\n            event_key.with_dispatch_target(mgr).base_listen(propagate=True)\n"), None)
